@@ -535,6 +535,9 @@ impl Model {
                     MContract { code_id: *code_id, creator: sender.to_string(), admin: admin.clone(), label: label.clone(), salt_key },
                 );
                 self.s.kv.entry(addr.clone()).or_default();
+                if !self.s.all_balances(&addr).is_empty() {
+                    self.probe("instantiate_at_address_that_holds_coins");
+                }
                 self.attach_funds(sender, &addr, funds)?;
                 let cid = code_id.to_string();
                 let e = ev("instantiate", &[(CONTRACT_ATTR, &addr), ("code_id", &cid)]);
